@@ -185,13 +185,34 @@ class OdeModel:
 
     # ---- recognisers -------------------------------------------------------
     def is_has_thermal(self, v) -> bool:
+        """v is true exactly when the network has a heating or a cooling process, however that is spelled:
+        `True if h or c else False`, `bool(h or c)`, `bool(h) or bool(c)`, `len(h) > 0 or len(c) > 0`, `len(h) + len(c) > 0`,
+        `any([h, c])`, `int(..)` of these"""
         v = simp(v)
         hc = {self.HEAT, self.COOL}
-        if v[0] == "ifexp" and v[2] == ("const", True) and v[3] == ("const", False):
+        if v[0] == "ifexp" and v[2] in (("const", True), ("const", 1)) and v[3] in (("const", False), ("const", 0)):
             v = v[1]
-        if v[0] == "call" and v[1] == ("global", "bool") and len(v[2]) == 1:
-            v = v[2][0]
-        return v[0] == "bool" and v[1] == "Or" and set(v[2]) == hc
+        if v[0] == "call" and v[1] in (("global", "bool"), ("global", "int")) and len(v[2]) == 1 and not v[3]:
+            return self.is_has_thermal(v[2][0])
+        if v[0] == "call" and v[1] == ("global", "any") and len(v[2]) == 1 and v[2][0][0] in ("list", "tuple"):
+            return {self._nonempty(x) for x in v[2][0][1]} == hc
+        if v[0] == "cmp" and len(v[1]) == 1 and len(v[2]) == 2:
+            # len(h) + len(c) > 0  /  != 0  /  >= 1
+            op, (a, b) = v[1][0], v[2]
+            if (op, b) in (("Gt", ("const", 0)), ("NotEq", ("const", 0)), ("GtE", ("const", 1))) and a[0] == "binop" and a[1] == "Add":
+                ln = lambda x: x[2][0] if x[0] == "call" and x[1] == ("global", "len") and len(x[2]) == 1 else None
+                return {ln(a[2]), ln(a[3])} == hc
+        return v[0] == "bool" and v[1] == "Or" and {self._nonempty(x) for x in v[2]} == hc
+
+    @staticmethod
+    def _nonempty(x):
+        """the list L when x is `L`, `bool(L)`, `len(L) > 0` (truth of a list = non-emptiness), else x"""
+        if x[0] == "call" and x[1] == ("global", "bool") and len(x[2]) == 1:
+            return x[2][0]
+        if x[0] == "cmp" and len(x[1]) == 1 and len(x[2]) == 2 and x[2][0][0] == "call" and x[2][0][1] == ("global", "len") and len(x[2][0][2]) == 1 \
+                and (x[1][0], x[2][1]) in (("Gt", ("const", 0)), ("NotEq", ("const", 0)), ("GtE", ("const", 1))):
+            return x[2][0][2][0]
+        return x
 
     def is_n_spec(self, v) -> bool:
         return simp(v) == self.N_SPEC
@@ -206,6 +227,7 @@ class OdeModel:
                 a, b = b, a
             if b == ("const", 1) and a[0] == "binop" and a[1] == "Add":
                 l, r = a[2], a[3]
+                # the flag may be added as a bool, as int(flag) or as `1 if flag else 0` (is_has_thermal sees through these)
                 return (self.is_n_spec(l) and self.is_has_thermal(r)) or (self.is_n_spec(r) and self.is_has_thermal(l))
         return False
 
@@ -239,7 +261,20 @@ class OdeModel:
             if f.kind not in ("augstore", "store"):
                 self.sites.append(Site(role, f, "other", problems=[("viol", "unexpected-writer", f"{f.kind} on {f.target}")]))
                 continue
-            self.sites.append(self._site(f, role))
+            self.sites.append(self._site(self._as_accumulation(f), role))
+
+    @staticmethod
+    def _as_accumulation(f):
+        """`X[i] = X[i] + t` (also written `f"{X[i]}..."` with the old entry first) is the accumulation `X[i] += t`"""
+        if f.kind != "store" or f.index is None or f.value is None:
+            return f
+        import dataclasses
+        v, old = simp(f.value), ("sub", ("acc", f.target), simp(f.index))
+        if v[0] == "binop" and v[1] == "Add" and v[2] == old:
+            return dataclasses.replace(f, kind="augstore", op="Add", value=v[3])
+        if v[0] == "fstr" and len(v[1]) >= 2 and v[1][0] == ("fmt", old, None, -1) and not any(old == x for p_ in v[1][1:] for x in walk(p_)):
+            return dataclasses.replace(f, kind="augstore", op="Add", value=("fstr", v[1][1:]))
+        return f
 
     def _site(self, f, role) -> Site:
         s = Site(role, f, "other")
@@ -288,7 +323,12 @@ class OdeModel:
             s.value = simp(f.value)
             return s
         if kind is None:
-            s.problems.append(("viol", "unexpected-writer", f"store into {f.target} outside the reaction/thermal/modifier loops"))
+            # a loop that does walk the reactions / thermal processes, but in a form that is not understood, is "cannot analyse"
+            lists = (self.REAC_FIELD, self.REAC, self.HEAT, self.COOL)
+            if outer is not None and any(x in lists for lp_ in f.loops for x in walk(simp(lp_.iter))):
+                s.problems.append(("unrec", "loop-shape", f"store into {f.target} inside a loop over {show(simp(outer.iter))[:80]}: loop form not understood"))
+            else:
+                s.problems.append(("viol", "unexpected-writer", f"store into {f.target} outside the reaction/thermal/modifier loops"))
             return s
         if f.op != "Add":
             s.problems.append(("viol", "op", f"accumulation uses {f.op}, not +="))
